@@ -564,6 +564,25 @@ SYNTH_STATIC = {
         return;
     }
 }''',
+    '__chain_next': '''fn __chain_next(_1: &mut I) -> Option {
+    bb0: {
+        _2 = __adapt_inner_next(copy _1) -> [return: bb1, unwind continue];
+    }
+    bb1: {
+        _3 = discriminant(_2);
+        switchInt(move _3) -> [0: bb2, otherwise: bb4];
+    }
+    bb2: {
+        _0 = __adapt_second_next(copy _1) -> [return: bb3, unwind continue];
+    }
+    bb3: {
+        return;
+    }
+    bb4: {
+        _0 = move _2;
+        return;
+    }
+}''',
     '__filter_next': '''fn __filter_next(_1: &mut I) -> Option {
     bb0: {
         _2 = __adapt_inner_next(copy _1) -> [return: bb1, unwind continue];
@@ -1162,6 +1181,10 @@ def model(ex, st, c, args):
         ad = D(args[0])
         end = ex.ref_chain_end(args[0])
         return iter_next(ex, st, ad.it, Ref(end.cell, list(end.path) + [('attr', 'it')]), '__iter_next')
+    if c == '__adapt_second_next':
+        ad = D(args[0])
+        end = ex.ref_chain_end(args[0])
+        return iter_next(ex, st, ad.fn, Ref(end.cell, list(end.path) + [('attr', 'fn')]), '__iter_next')
     if c == '__adapt_call':
         ad = D(args[0])
         return call_value(ex, st, ad.fn, [args[1]])
@@ -1770,15 +1793,7 @@ def iter_next(ex, st, it, handle, c):
         if it.kind == 'filter':
             return ('BODY', synth_static(ex, '__filter_next'), [end])
         if it.kind == 'chain':
-            first = iter_next(ex, st, it.it, Ref(end.cell, list(end.path) + [('attr', 'it')]), c)
-            if isinstance(first, Adt) and first.ty == 'Option':
-                if first.variant == 1:
-                    return first
-                return iter_next(ex, st, it.fn, Ref(end.cell, list(end.path) + [('attr', 'fn')]), c)
-            if isinstance(first, tuple) and first[0] == 'BODY':
-                # crate iterator as first half: run it; when it is exhausted the caller must continue with the second half.
-                raise Unsupported('chain whose first half is a non-native iterator')
-            raise Unsupported('chain over %r' % (it.it,))
+            return ('BODY', synth_static(ex, '__chain_next'), [end])
         if it.kind == 'cloned':
             r = iter_next(ex, st, it.it, Ref(end.cell, list(end.path) + [('attr', 'it')]), c)
             if isinstance(r, Adt) and r.ty == 'Option':
